@@ -131,6 +131,14 @@ theorem legacy_fallback_witness :
     legacyStrictParse lEnv { i := { pv := some 30 }, ptrExTakesValues := true } (valIn true 20) = .err 1 ∧
     strictParse lEnv { i := { pv := some 30 }, ptrExTakesValues := true } (valIn true 20) = .val 20 := by decide
 
+/-- The pointer pre-pass of the legacy `validatePointer` let an overwrite check bypass the validator: a value
+    the validator rejects (an invalid member) came back accepted — in `Parse` and, since 692881a, in
+    `StrictParse` alike (so it was never a C09 disagreement on the engine pair, but it is one as soon as one of
+    the two entry points reaches the validator by another route: seeded/C09c). -/
+theorem legacy_validatePointer_bypass :
+    legacyValidatePointer { lEnv with firstPass := fun _ v => some (v + 1) } { i := { checks := [.overwrite 0] } } 5 = .ptr 6 ∧
+    validatePointer { lEnv with firstPass := fun _ v => some (v + 1) } { i := { checks := [.overwrite 0] } } 5 = .err 7 := by decide
+
 /-- Hence the legacy function does not have the property. -/
 theorem legacy_not_agreeing :
     ¬ ∀ (c : CCfg Nat Nat Nat Nat) (x : CIn Nat), legacyStrictParse lEnv c x = typeParse sliceConv lEnv c x := by
